@@ -65,6 +65,11 @@ where
             .await
             .with_context(|| format!("file open failed {:?}", path))?;
         file.write_append_all(buf.freeze()).await?;
+        // The header rewrite below marks the file as completely written. Un-synced writes reach the
+        // disk in any order, so the content has to be durable before the mark is: otherwise a power
+        // loss can leave a marked header in front of tree or leaf blocks that were never written,
+        // and such a file is trusted at the next start (its content is not verified on open)
+        file.fsyncdata().await?;
         header.set_written(true);
         let size = header.serialized_size();
         let mut serialized_header = BytesMut::with_capacity(size as usize);
